@@ -39,6 +39,23 @@ def gen_cases(ctx, n_parse, n_resolve, n_ranges):
         contig = rng.choice(["0", "0", "1"])
         reqs.append(["resolve_names", hxlist(a), hxlist(u), hxlist(h), ",".join(oids) or "-", c, contig, hxlist(rs)])
         meta.append(("resolve_names", a, u, h, oids, c, contig, rs))
+    # boundary stream: open / closed ranges whose ends sit exactly on the applied / unapplied /
+    # hidden boundaries, under every constraint
+    for _ in range(max(1, n_ranges // 60)):
+        a, u, h, oids = gen_loc.fake_stack(rng)
+        ends = [l[0] for l in (a, u, h) if l] + [l[-1] for l in (a, u, h) if l]
+        ends = list(dict.fromkeys(ends))
+        cands = [e + ".." for e in ends] + [".." + e for e in ends] + [".."]
+        for x in ends[:3]:
+            for y in ends[:4]:
+                cands.append(x + ".." + y)
+        for rtxt in cands:
+            c = rng.choice(CONSTRAINTS)
+            for c in (c, "AllWithAppliedBoundary", "VisibleWithAppliedBoundary"):
+                contig = rng.choice(["0", "1"])
+                reqs.append(["resolve_names", hxlist(a), hxlist(u), hxlist(h), ",".join(oids) or "-", c, contig,
+                             hxlist([rtxt])])
+                meta.append(("resolve_names", a, u, h, oids, c, contig, [rtxt]))
     return reqs, meta
 
 
@@ -60,8 +77,31 @@ def direct_oracle(m, impl):
             return "range expansion contains duplicates"
         if any(o not in a + u + h for o in out):
             return "range expansion contains an unknown name"
-    if m[0] in ("locparse", "rangeparse") and impl.startswith("ok "):
-        return None
+    if m[0] == "resolve_names" and impl.startswith("ok ") and len(m[7]) == 1:
+        # independent statement of the documented expansion for a single range between two
+        # plain existing names (or open ends): contiguous interval of the allowed list in stack
+        # order; an open end stops at the last applied patch for the *AppliedBoundary
+        # constraints when the begin is applied, else at the end of the allowed list
+        _, a, u, h, oids, c, contig, rs = m
+        out = [unhx(x) for x in impl[3:].split(",")] if impl[3:] != "-" else []
+        allowed = {"All": a + u + h, "AllWithAppliedBoundary": a + u + h, "Visible": a + u,
+                   "VisibleWithAppliedBoundary": a + u, "Applied": a, "Unapplied": u, "Hidden": h}[c]
+        r = rs[0]
+        if r.count("..") == 1:
+            b, e = r.split("..")
+            names = a + u + h
+            if (b == "" or b in names) and (e == "" or e in names) and len(set(names)) == len(names):
+                if (b == "" or b in allowed) and (e == "" or e in allowed) and allowed:
+                    bp = allowed.index(b) if b else 0
+                    if e:
+                        ep = allowed.index(e)
+                    elif c.endswith("AppliedBoundary") and a and bp < len(a):
+                        ep = len(a) - 1
+                    else:
+                        ep = len(allowed) - 1
+                    want = allowed[bp:ep + 1] if bp <= ep else list(reversed(allowed[ep:bp + 1]))
+                    if out != want:
+                        return "range %r under %s expanded to %r, documented expansion is %r" % (r, c, out, want)
     return None
 
 
